@@ -154,7 +154,7 @@ class Interp {
   std::string exp_text_piece(const MExp& e) const {
     if (e.is_mon) return "REQUIRE_DESTRUCTION(";
     if (e.s.lit >= 0) return lit_forms()[e.s.lit].text;
-    return "wmock_s<" + std::to_string(e.s.slot) + ">(s.obj)" + site_text_piece(e.s.func);
+    return "wmock_s<" + std::to_string(e.s.slot) + ">(mk)" + site_text_piece(e.s.func);
     return site_text_piece(e.s.func);
   }
   static std::string arg_text(int func, int idx, int v) {
@@ -505,7 +505,7 @@ class Interp {
       case O_DESTROY_MOCK: real::destroy_mock(o.at(0)); any_moved[o.at(0)] = false; break;
       case O_RECREATE_MOCK: real::recreate_mock(o.at(0)); break;
       case O_DESTROY_SEQ: real::destroy_seq(o.at(0)); break;
-      case O_MOVE_SEQ: real::move_seq(o.at(0)); break;
+      case O_MOVE_SEQ: real::move_seq(o.at(0), o.at(1)); break;
       case O_RECREATE_SEQ: real::recreate_seq(o.at(0)); last_completed[o.at(0)] = true; break;
       case O_WATCH: { int sq[2] = {o.at(3), o.at(4)}; real::watch(o.at(0), o.at(1), eid0, o.at(2), sq); break; }
       case O_UNWATCH: real::unwatch(o.at(0), o.at(1)); break;
@@ -768,7 +768,7 @@ class Interp {
       case O_DESTROY_MOCK: real::destroy_mock(o.at(0)); break;
       case O_RECREATE_MOCK: real::recreate_mock(o.at(0)); break;
       case O_DESTROY_SEQ: real::destroy_seq(o.at(0)); break;
-      case O_MOVE_SEQ: real::move_seq(o.at(0)); break;
+      case O_MOVE_SEQ: real::move_seq(o.at(0), o.at(1)); break;
       case O_RECREATE_SEQ: real::recreate_seq(o.at(0)); break;
       case O_WATCH: { int sq[2] = {o.at(3), o.at(4)}; real::watch(o.at(0), o.at(1), eid0, o.at(2), sq); break; }
       case O_UNWATCH: real::unwatch(o.at(0), o.at(1)); break;
